@@ -5,7 +5,11 @@
 //!      `internal(...)` error kind or a compiler panic on a checker-accepted program is a failing input (`spec_fail`);
 //!  (2) tie of the VM-core model: every generated F0 program is compiled by the model compiler and run by the model
 //!      VM (`vmrun …`): outcome kind and output must equal the real compiler + VM;
-//!  (3) D21 replayed as a fault (the operand left behind by `break` reaches an instruction that expects another tag).
+//!  (3) the former D21 fault witness (operand left behind by `break`; repaired by 0c43abd) is a hard regression program;
+//!  (4) coverage-guided template families with Rust oracles (harness/src/bg9cov.rs): byte intrinsics out of range, void
+//!      struct fields, intrinsic function values, frames beyond 16384 slots, the former WrongType faults D87/D96/D97/D98.
+#[path = "../bg9cov.rs"]
+mod bg9cov;
 #[path = "../progen.rs"]
 mod progen;
 use progen::run::*;
@@ -137,16 +141,17 @@ fn product_void_templates() -> Vec<(String, String, String)> {
 fn main() {
     let mut ctx = Ctx::from_env("C01");
     let base = probe_shapes(&mut ctx);
+    // coverage-guided template families with their own oracles (harness/src/bg9cov.rs)
+    bg9cov::run_templates(&mut ctx, "C01");
 
-    // ---- (3) D21 as a fault
+    // ---- (3) D21 (repaired by 0c43abd): the former fault witness is a HARD regression program
     let d21 = "let r = 100 + { while true { let t = (\"x\", if true { break }) }\n 5 }\nprintln(r)\n";
     match run_all(d21, &[]) {
-        R::Bad(why) => {
-            ctx.known_findings.push("D21".into());
-            ctx.notes.push(format!("D21 fault witness: {why}"));
-            ctx.count("replay:D21:faults");
+        R::Fine(_) => ctx.count("regression:D21:ok"),
+        other => {
+            ctx.count("regression:D21:FAILS");
+            ctx.spec_fail(format!("regression of a repaired defect (D21): {other:?}\n{d21}"));
         }
-        _ => ctx.count("replay:D21:no-fault"),
     }
 
     // ---- string comparisons in operand positions (the resumable string instructions share progress registers)
@@ -196,7 +201,8 @@ fn main() {
                 nesting,
                 lambda_boost: nesting && tier >= 3,
                 big_ints: if k % 5 == 0 { 10 } else { 2 },
-                depth_safe: true,
+                // one third keeps break/continue at statement level (the historical DepthSafe shape)
+                depth_safe: k % 3 == 0,
                 ..base.clone()
             };
             let (prog, _) = generate(&mut r, o);
